@@ -17,6 +17,18 @@ Theorem noninterference :
 Proof. exact noninterference_lemma. Qed.
 Print Assumptions noninterference.
 
+(* all interleavings of the same per-thread workloads are equivalent for every thread *)
+Theorem schedule_independence :
+  forall (Ctx : Type) (footprint : string -> list string),
+    (forall f, footprint f = []) ->
+    forall (s1 s2 : list (nat * step Ctx)) (st : sys Ctx),
+      Forall (fun p => step_ok Ctx footprint (snd p)) s1 ->
+      Forall (fun p => step_ok Ctx footprint (snd p)) s2 ->
+      (forall i, alone Ctx i s1 = alone Ctx i s2) ->
+      forall i, result Ctx i (run Ctx s1 st) = result Ctx i (run Ctx s2 st).
+Proof. exact schedule_independence_lemma. Qed.
+Print Assumptions schedule_independence.
+
 (* steps of different threads commute *)
 Theorem steps_commute :
   forall (Ctx : Type) (footprint : string -> list string),
